@@ -118,7 +118,7 @@ func (cce *staleIfErrorPolicy) CanStaleOnError(
 		}
 		age := SaturatingAdd(freshness.Age.Value, cce.clock.Since(freshness.Age.Timestamp))
 		// If stale-if-error is set, allow extra staleness (strictly below the window, RFC 5861 §4)
-		if age < freshness.UsefulLife+dur {
+		if age < SaturatingAdd(freshness.UsefulLife, dur) {
 			return true
 		}
 	}
